@@ -762,6 +762,9 @@ struct MacroBlock {
     chroma_mode: ChromaMode,
     segmentid: u8,
     coeffs_skipped: bool,
+    /// Whether any coefficient of the macroblock is non-zero. The inner edges of a macroblock
+    /// without coefficients are not loop-filtered (unless it uses sub-block prediction).
+    non_zero_coeffs: bool,
 }
 
 /// A Representation of the last decoded video frame
@@ -1705,9 +1708,10 @@ impl<R: Read> Vp8Decoder<R> {
         mb: &MacroBlock,
         mbx: usize,
         p: usize,
-    ) -> Result<[i32; 384], DecodingError> {
+    ) -> Result<([i32; 384], bool), DecodingError> {
         let sindex = mb.segmentid as usize;
         let mut blocks = [0i32; 384];
+        let mut non_zero = false;
         let mut plane = if mb.luma_mode == LumaMode::B { 3 } else { 1 };
 
         if plane == 1 {
@@ -1742,6 +1746,7 @@ impl<R: Read> Vp8Decoder<R> {
 
                 let n = self.read_coefficients(block, p, plane, complexity as usize, dcq, acq)?;
 
+                non_zero |= block.iter().any(|&c| c != 0);
                 if block[0] != 0 || n {
                     transform::idct4x4(block);
                 }
@@ -1770,6 +1775,7 @@ impl<R: Read> Vp8Decoder<R> {
 
                     let n =
                         self.read_coefficients(block, p, plane, complexity as usize, dcq, acq)?;
+                    non_zero |= block.iter().any(|&c| c != 0);
                     if block[0] != 0 || n {
                         transform::idct4x4(block);
                     }
@@ -1782,7 +1788,7 @@ impl<R: Read> Vp8Decoder<R> {
             }
         }
 
-        Ok(blocks)
+        Ok((blocks, non_zero))
     }
 
     /// Does loop filtering on the macroblock
@@ -1865,7 +1871,7 @@ impl<R: Read> Vp8Decoder<R> {
             }
 
             //filter across vertical subblocks in macroblock
-            if mb.luma_mode == LumaMode::B || !mb.coeffs_skipped {
+            if mb.luma_mode == LumaMode::B || mb.non_zero_coeffs {
                 if self.frame.filter_type {
                     for x in (4usize..luma_xlength - 1).step_by(4) {
                         for y in 0..luma_ylength {
@@ -1987,7 +1993,7 @@ impl<R: Read> Vp8Decoder<R> {
             }
 
             //filter across horizontal subblock edges within the macroblock
-            if mb.luma_mode == LumaMode::B || !mb.coeffs_skipped {
+            if mb.luma_mode == LumaMode::B || mb.non_zero_coeffs {
                 if self.frame.filter_type {
                     for y in (4usize..luma_ylength - 1).step_by(4) {
                         for x in 0..luma_xlength {
@@ -2123,9 +2129,11 @@ impl<R: Read> Vp8Decoder<R> {
             self.left = MacroBlock::default();
 
             for mbx in 0..self.mbwidth as usize {
-                let mb = self.read_macroblock_header(mbx)?;
+                let mut mb = self.read_macroblock_header(mbx)?;
                 let blocks = if !mb.coeffs_skipped {
-                    self.read_residual_data(&mb, mbx, p)?
+                    let (blocks, non_zero) = self.read_residual_data(&mb, mbx, p)?;
+                    mb.non_zero_coeffs = non_zero;
+                    blocks
                 } else {
                     if mb.luma_mode != LumaMode::B {
                         self.left.complexity[0] = 0;
